@@ -209,13 +209,16 @@ fn types_for<H: hbs_lms::HashChain>(alg: Alg, wv: u32, r: &mut Report, rng: &mut
             |v: &vh::ReferenceImplPrivateKey<H>| v.seed.as_slice().iter().all(|b| *b == 0)
         );
     }
-    let mut o = Obs { r, alg, ty: "LmsPrivateKey", w: wv };
-    check_type!(
-        o,
-        &secrets,
-        vh::LmsPrivateKey::<H>::new(seed_of::<H>(&seed_bytes), i_tree, 7, *param.get_lmots_parameter(), *param.get_lms_parameter()),
-        |v: &vh::LmsPrivateKey<H>| v.seed.as_slice().iter().all(|b| *b == 0)
-    );
+    // a tree key in the middle of its life, on its last leaf, and used up (index = number of leaves)
+    for (ty, used) in [("LmsPrivateKey", 7u32), ("LmsPrivateKey(fresh)", 0), ("LmsPrivateKey(last leaf)", 31), ("LmsPrivateKey(used up)", 32)] {
+        let mut o = Obs { r, alg, ty, w: wv };
+        check_type!(
+            o,
+            &secrets,
+            vh::LmsPrivateKey::<H>::new(seed_of::<H>(&seed_bytes), i_tree, used, *param.get_lmots_parameter(), *param.get_lms_parameter()),
+            |v: &vh::LmsPrivateKey<H>| v.seed.as_slice().iter().all(|b| *b == 0)
+        );
+    }
     // LM-OTS private key: the chain start values are the secrets
     let make_ots = || vh::generate_lmots_private_key::<H>(i_tree, [0, 0, 0, 5], seed_of::<H>(&seed_bytes), *param.get_lmots_parameter());
     let chain_secrets: Vec<Vec<u8>> = {
